@@ -5,6 +5,7 @@ import (
 	"go/constant"
 	"go/token"
 	"go/types"
+	"sort"
 	"strings"
 
 	"golang.org/x/tools/go/ssa"
@@ -88,6 +89,84 @@ func runC19(p *core.Prog, r *core.Report, tier string) {
 		checkHierarchicalLoop(p, r, ds, f)
 	}
 	r.Tables["getters"] = names
+
+	// ---- (5) the levels below the top are read through the hierarchical getters only: a direct read of
+	// "<path>.<variable>" sees that one level and misses what the levels above it configure ----
+	isGetter := map[*ssa.Function]bool{}
+	for _, f := range append(append([]*ssa.Function{}, getters...), loopGetters...) {
+		isGetter[f] = true
+	}
+	vars := map[string]bool{}
+	for f := range isGetter {
+		core.EachInstr(f, func(in ssa.Instruction) {
+			c, ok := in.(*ssa.Call)
+			if !ok {
+				return
+			}
+			if _, ok := isViperGetter(&c.Call); ok && len(c.Call.Args) > 0 {
+				if k, ok := constString(c.Call.Args[0]); ok && k != "" {
+					vars[k] = true
+				}
+			}
+		})
+	}
+	for _, f := range p.SrcFuncs() {
+		for _, ci := range core.Calls(f, func(c *ssa.CallCommon) bool { return c.StaticCallee() != nil && isGetter[c.StaticCallee()] }) {
+			for _, a := range ci.Common().Args {
+				if k, ok := constString(a); ok && k != "" && !strings.Contains(k, ".") && len(ci.Common().Args) > 1 {
+					// the variable argument of a generic getter (HierarchicalBool(variable, path))
+					if ci.Common().StaticCallee().Params[0] != nil && a == ci.Common().Args[0] {
+						vars[k] = true
+					}
+				}
+			}
+		}
+	}
+	var vlist []string
+	for v := range vars {
+		vlist = append(vlist, v)
+	}
+	sort.Strings(vlist)
+	r.Tables["hierarchical-variables"] = vlist
+	nDirect, nReads := 0, 0
+	for _, f := range p.SrcFuncs() {
+		top := f
+		for top.Parent() != nil {
+			top = top.Parent()
+		}
+		if isGetter[top] {
+			continue
+		}
+		core.EachInstr(f, func(in ssa.Instruction) {
+			c, ok := in.(*ssa.Call)
+			if !ok {
+				return
+			}
+			if _, ok := isViperGetter(&c.Call); !ok || len(c.Call.Args) == 0 {
+				return
+			}
+			nReads++
+			key := ""
+			if k, ok := constString(c.Call.Args[0]); ok {
+				key = k
+			} else if sp, ok := c.Call.Args[0].(*ssa.Call); ok && strings.HasSuffix(core.CalleeName(&sp.Call), "fmt.Sprintf") {
+				if k, ok := constString(sp.Call.Args[0]); ok {
+					key = k
+				}
+			}
+			for _, v := range vlist {
+				if strings.HasSuffix(key, "."+v) {
+					nDirect++
+					r.Violate("C19.5", fmt.Sprintf("%s|direct-read|%s", core.FnKey(f), key), p.Pos(c.Pos()), "the hierarchical variable "+v+" is read directly at one level ("+key+") instead of through its hierarchical getter: a value configured at a level between this one and the top is ignored")
+				}
+			}
+		})
+	}
+	if nDirect == 0 {
+		r.Hold("C19.5", "no-direct-level-reads", "", fmt.Sprintf("none of the %d configuration reads outside the hierarchical getters names a lower level of a hierarchical variable (%s)", nReads, strings.Join(vlist, ", ")))
+	}
+	r.Floor("C19.5 hierarchical variables", len(vlist), 4)
+	r.Floor("C19.5 configuration reads swept", nReads, 20)
 }
 
 // loopPathPhi recognises the iterative form of a hierarchical getter: a string variable that starts as a string
